@@ -292,6 +292,108 @@ var writeProp = vp.Register(vp.Prop[WriteCase]{
 	Check: checkWrite,
 })
 
+// NestedCase stacks two limited readers on one stream and reads through both
+// of them in a generated order.
+type NestedCase struct {
+	Len    int    `json:"len"`
+	Inner  uint64 `json:"inner_limit"`
+	Outer  uint64 `json:"outer_limit"`
+	Steps  []Step `json:"steps"`
+	Reads  []int  `json:"reads"`  // buffer sizes
+	ViaOut []bool `json:"via_outer"` // per read: through the outer (true) or the inner reader
+}
+
+// budgetReader checks the statement's invariants for one LimitReader(r, n) at
+// the level of r itself: r is never handed a buffer larger than n minus what
+// it has delivered so far, and never delivers more than n in total.
+type budgetReader struct {
+	*scripted
+	limit     uint64
+	delivered uint64
+	bad       string
+}
+
+func (b *budgetReader) Read(p []byte) (int, error) {
+	if uint64(len(p)) > b.limit-min(b.limit, b.delivered) && b.bad == "" {
+		b.bad = fmt.Sprintf("the underlying reader was given a %d-byte buffer after %d of its %d-byte allowance had been delivered", len(p), b.delivered, b.limit)
+	}
+	n, err := b.scripted.Read(p)
+	b.delivered += uint64(max(n, 0))
+	if b.delivered > b.limit && b.bad == "" {
+		b.bad = fmt.Sprintf("%d bytes were read from the underlying reader of LimitReader(r, %d)", b.delivered, b.limit)
+	}
+	return n, err
+}
+
+func checkNested(c NestedCase) error {
+	under := &budgetReader{scripted: &scripted{n: c.Len, steps: c.Steps}, limit: c.Inner}
+	inner := ioutil.LimitReader(under, c.Inner)
+	outer := ioutil.LimitReader(inner, c.Outer)
+	var got uint64
+	var viaOuter uint64
+	for i, sz := range c.Reads {
+		r, name := inner, "inner"
+		if i < len(c.ViaOut) && c.ViaOut[i] {
+			r, name = outer, "outer"
+		}
+		p := make([]byte, sz)
+		n, err := r.Read(p)
+		if n < 0 || n > sz {
+			return fmt.Errorf("read %d (%s): n=%d for a %d-byte buffer", i, name, n, sz)
+		}
+		for j := 0; j < n; j++ {
+			if p[j] != streamByte(int(got)+j) {
+				return fmt.Errorf("read %d (%s): delivered bytes are not the next bytes of the stream", i, name)
+			}
+		}
+		got += uint64(n)
+		if name == "outer" {
+			viaOuter += uint64(n)
+			if viaOuter > c.Outer {
+				return fmt.Errorf("read %d: %d bytes delivered through LimitReader(inner, %d)", i, viaOuter, c.Outer)
+			}
+		}
+		if got > c.Inner {
+			return fmt.Errorf("read %d (%s): %d bytes delivered in total through LimitReader(r, %d)", i, name, got, c.Inner)
+		}
+		if under.bad != "" {
+			return fmt.Errorf("read %d (%s): %s", i, name, under.bad)
+		}
+		if got == c.Inner && n == 0 && err == nil && sz > 0 {
+			return fmt.Errorf("read %d (%s): (0, nil) after the inner limit %d was delivered, want a *LimitError", i, name, c.Inner)
+		}
+		_ = err
+	}
+	vp.Class("nested:case")
+	if viaOuter > 0 && got > viaOuter {
+		vp.Class("nested:read-through-both-readers")
+		vp.NonTrivialStr("c15.nested", fmt.Sprintf("%+v", c))
+		vp.Sample("nested", c)
+	}
+	return nil
+}
+
+var nestedProp = vp.Register(vp.Prop[NestedCase]{
+	Kind: "c15.nested", Base: 30000,
+	Gen: func(t *rapid.T) NestedCase {
+		l := rapid.IntRange(0, 120).Draw(t, "len")
+		inner := uint64(rapid.IntRange(0, l+5).Draw(t, "inner"))
+		outer := uint64(rapid.IntRange(0, int(inner)+5).Draw(t, "outer"))
+		n := rapid.IntRange(1, 16).Draw(t, "reads")
+		c := NestedCase{Len: l, Inner: inner, Outer: outer}
+		c.Steps = rapid.SliceOfN(rapid.Custom(func(t *rapid.T) Step {
+			return Step{N: rapid.IntRange(0, 40).Draw(t, "n"), Err: rapid.SampledFrom([]int{0, 0, 0, 0, 1, 2}).Draw(t, "err")}
+		}), 0, 8).Draw(t, "steps")
+		for i := 0; i < n; i++ {
+			c.Reads = append(c.Reads, rapid.IntRange(0, 40).Draw(t, "size"))
+			c.ViaOut = append(c.ViaOut, rapid.Bool().Draw(t, "via"))
+		}
+		return c
+	},
+	Check: checkNested,
+})
+
+func TestNested(t *testing.T) { vp.Run(t, nestedProp) }
 func TestRead(t *testing.T)   { vp.Run(t, readProp) }
 func TestWrite(t *testing.T)  { vp.Run(t, writeProp) }
 func TestReplay(t *testing.T) { vp.Replay(t) }
